@@ -15,7 +15,9 @@ Inductive dexp :=
 | DAdd (a b : dexp) | DMul (a b : dexp) | DSub (a b : dexp) | DDiv (a b : dexp).
 Inductive dcond :=
 | CLt (a b : dexp)             (* a < b            *)
+| CLe (a b : dexp)             (* a <= b           *)
 | CNe (a b : dexp)             (* a != b           *)
+| CEq (a b : dexp)             (* a == b           *)
 | COdd (a : dexp).             (* a % 2 != 0       *)
 Inductive dstmt :=
 | DChkSize                     (* check_request_pdu_size / check_response_pdu_size (pdu_size)?          *)
@@ -55,7 +57,9 @@ Fixpoint eval_dexp (bs : list N) (env : list dval) (e : dexp) : N :=
 Definition eval_dcond (bs : list N) (env : list dval) (c : dcond) : bool :=
   match c with
   | CLt a b => eval_dexp bs env a <? eval_dexp bs env b
+  | CLe a b => eval_dexp bs env a <=? eval_dexp bs env b
   | CNe a b => negb (eval_dexp bs env a =? eval_dexp bs env b)
+  | CEq a b => eval_dexp bs env a =? eval_dexp bs env b
   | COdd a => negb (eval_dexp bs env a mod 2 =? 0)
   end.
 
